@@ -721,7 +721,25 @@ func (s *spkSys) settle(max int) bool {
 // freshObservable starts a fresh speaker on a copy of the final cluster state, feeds it in canonical
 // order (config, nodes, full sync) and returns what it announces.
 func (s *spkSys) freshObservable() (string, bool) {
-	f := &spkSys{u: s.u, store: s.store, otherAlive: s.otherAlive, nodeVar: s.nodeVar, cfgIdx: s.cfgIdx}
+	f, ok := s.freshSys()
+	return f.observable(), ok
+}
+
+// announcedNames is the set of services the controller counts as announced on some protocol.
+func (s *spkSys) announcedNames() map[string]bool {
+	out := map[string]bool{}
+	for _, m := range s.c.announced {
+		for k, v := range m {
+			if v {
+				out[k] = true
+			}
+		}
+	}
+	return out
+}
+
+func (s *spkSys) freshSys() (*spkSys, bool) {
+	f := &spkSys{u: s.u, store: s.store, otherAlive: s.otherAlive, nodeVar: s.nodeVar, cfgIdx: s.cfgIdx, errKeys: map[string]bool{}}
 	f.start()
 	f.cfgQ.Add("config")
 	for n := range s.u.NodeVars {
@@ -731,7 +749,7 @@ func (s *spkSys) freshObservable() (string, bool) {
 		f.svcQ.Add(k)
 	}
 	ok := f.settle(80)
-	return f.observable(), ok && f.panicMsg == ""
+	return f, ok && f.panicMsg == ""
 }
 
 var _ client.Object = &v1.Service{}
